@@ -22,7 +22,7 @@ pub static DEF: PropDef = PropDef {
     real: &["filter parser, DefaultCompiler / every compiled closure, Filter::execute, FilterValue::execute", "regex-automata meta::Regex with its cache pool", "sliceslice / memchr searchers, LazyLock SIMD latch", "Scheme / AST Arc sharing", "real OS threads"],
     stub: &["thread scheduler (cooperative baton; pre-emption at node entries and callbacks only)", "SIMD anchor draw (supplied by the tape)", "user functions and list matcher (harness plug-ins)"],
     assumptions: &["code between two scheduling points is atomic in this engine; instruction-level interleavings and data races are covered only by the Miri tier (scalar path)", "harness callbacks are pure functions of their arguments"],
-    required_probes: &["c18.exec", "c18.recompile", "c18.value_exec", "c18.shared_ctx", "c18.regex_on_2_threads", "c18.t64", "c18.injected_panic_isolated", "c18.inside_overlap", "c18.parse", "c18.panic_burst"],
+    required_probes: &["c18.exec", "c18.recompile", "c18.value_exec", "c18.shared_ctx", "c18.regex_on_2_threads", "c18.t64", "c18.injected_panic_isolated", "c18.inside_overlap", "c18.parse", "c18.panic_burst", "c18.refused_parse"],
     extra: Some(extra),
 };
 
@@ -79,7 +79,10 @@ enum Step {
     CloneDrop(usize),
     Serialise(usize),
     /// parse the filter text again inside the task (harness functions' parse-time callbacks are scheduling points)
-    Parse(usize),
+    /// ... optionally after a *refused* parse on the same thread: the same text cut at the given byte offset (an
+    /// unterminated literal, a dangling operator); whatever a refused parse leaves behind on the thread must not leak
+    /// into the next one
+    Parse(usize, Option<usize>),
     /// n executions in a row that each unwind out of a user callback and are caught by the caller, followed by a
     /// normal execution: the thread must be as good as new
     PanicBurst(usize, usize),
@@ -178,9 +181,19 @@ fn task_body(task: usize, sh: Arc<Shared>, steps: Vec<Step>) {
                 let got = exec_filter(bf, &sh.ctxs[c]);
                 check("after-panic-burst", "boom filter", got, &sh.boom_baseline[c], task);
             }
-            Step::Parse(f) => {
+            Step::Parse(f, cut) => {
                 let ast = sh.asts[f].clone();
                 let scheme = ast.scheme().clone();
+                if let Some(mut k) = cut {
+                    let text = &sh.texts[f];
+                    while k > 0 && !text.is_char_boundary(k) {
+                        k -= 1;
+                    }
+                    let refused = catch_unwind(AssertUnwindSafe(|| scheme.parse(&text[..k]).is_err()));
+                    if matches!(refused, Ok(true)) {
+                        kernel::count("c18.refused_parse");
+                    }
+                }
                 match catch_unwind(AssertUnwindSafe(|| scheme.parse(&sh.texts[f]).map_err(|e| e.to_string()))) {
                     Ok(Ok(again)) => {
                         kernel::count("c18.parse");
@@ -338,7 +351,7 @@ fn run(ctx: &RunCtx) -> Result<(), Violation> {
                 2 => Step::Recompile(f, c),
                 3 => Step::CloneDrop(f),
                 4 => Step::Serialise(f),
-                5 => Step::Parse(f),
+                5 => Step::Parse(f, chance(1, 2, "step.parse_after_refusal").then(|| choose(texts[f].len().max(1), "step.parse_cut"))),
                 _ => {
                     if chance(1, 4, "step.burst") {
                         Step::PanicBurst(c, [1usize, 33, 40][choose(3, "step.burst_n")])
@@ -437,7 +450,7 @@ fn run(ctx: &RunCtx) -> Result<(), Violation> {
     Ok(())
 }
 
-// ------------------------------------------------------------------ Miri tier (thorough only)
+// ------------------------------------------------------------------ Miri tier
 
 fn extra(tier: Tier, seed: u64) -> ExtraResult {
     let mut out = ExtraResult::default();
@@ -445,7 +458,7 @@ fn extra(tier: Tier, seed: u64) -> ExtraResult {
         out.coverage.insert("miri".into(), serde_json::json!("switched off by VERIF_MIRI=0"));
         return out;
     }
-    // quick: 24 interpreter seeds of one workload variant (about 30 s); thorough: 2 x 64
+    // quick: 2 x 12 interpreter seeds (pre-emption rates 0.1 and 0.4, about 60 s); thorough: 2 x 64
     let default_seeds = if tier == Tier::Thorough { 64 } else { 24 };
     crate::miri::run_miri(seed, default_seeds, &mut out);
     out
